@@ -195,9 +195,35 @@ def run(prog: Program, rep: Report, tier: str):
         rep.decide(not missing, "G4.selection-deps", fi, "parameters", f"indices depend on {', '.join(sorted(have - {'dataset'})) or '-'}",
                    f"the selection handed to the subset base does not depend on the constructor argument(s) "
                    f"{', '.join(missing)}: the argument is silently ignored", line=sc.lineno, clause="C03.4")
+    stable_sort(prog, rep)
     rep.floor("'p = p or D' defaults in selection constructors", n_or, 4)
     rep.floor("'while v > 0' loops in selection constructors", n_loops, 1)
     names.check(prog, rep, FILES, clause="C03.5", floor=12)
+
+
+def stable_sort(prog: Program, rep: Report):
+    """SortByClassWrapper promises stable ties: third-party sorts are stable only when asked to be."""
+    rep.rule("G2.stable-sort", "SortByClassWrapper keeps samples of one class in their original order: it gathers indices class by "
+             "class in index order, or uses a sort that is stable by contract (torch.sort / argsort with stable=True, numpy with "
+             "kind='stable' / 'mergesort', Python's sorted / list.sort); torch.argsort / torch.sort / np.argsort with their "
+             "default algorithm are not stable")
+    C = prog.cls("SortByClassWrapper")
+    fi = C.methods.get("__init__")
+    fa = fa_of(prog, fi)
+    bad = []
+    for n, c in fa.calls():
+        nm = c.func.attr if isinstance(c.func, ast.Attribute) else getattr(c.func, "id", "")
+        if nm in ("argsort", "sort"):
+            kws = {k.arg: k.value for k in c.keywords}
+            stable = (isinstance(kws.get("stable"), ast.Constant) and kws["stable"].value is True) or (
+                isinstance(kws.get("kind"), ast.Constant) and kws["kind"].value in ("stable", "mergesort"))
+            t = fa.sym.term(c.func, n)
+            third_party = (t[0] == "global" and t[1].split(".")[0] in ("torch", "numpy")) or t[0] == "attr"
+            if third_party and not stable:
+                bad.append((n, c))
+    rep.decide(not bad, "G2.stable-sort", fi, "sort-calls", "no unstable third-party sort in the selection",
+               "; ".join(f"{ast.unparse(c)[:60]} is not stable by contract: samples of equal class can change their relative order"
+                         for _, c in bad[:2]), line=bad[0][1].lineno if bad else fi.node.lineno, clause="C03.4")
 
 
 def _arms(fa: FA, val: ast.AST, n: int):
